@@ -168,7 +168,7 @@ class Matrix3(Matrix):
             matrix[...,2,2] = -sin_angle
 
             for (key, deriv) in angle._derivs_.items():
-                obj.insert_deriv(key, Matrix(matrix * deriv))
+                obj.insert_deriv(key, Matrix(matrix, angle._mask_) * deriv)
 
         return obj
 
@@ -205,7 +205,7 @@ class Matrix3(Matrix):
             matrix[...,2,2] = -sin_angle
 
             for (key, deriv) in angle._derivs_.items():
-                obj.insert_deriv(key, Matrix(matrix * deriv))
+                obj.insert_deriv(key, Matrix(matrix, angle._mask_) * deriv)
 
         return obj
 
@@ -242,7 +242,7 @@ class Matrix3(Matrix):
             matrix[...,1,1] = -sin_angle
 
             for (key, deriv) in angle._derivs_.items():
-                obj.insert_deriv(key, Matrix(matrix * deriv))
+                obj.insert_deriv(key, Matrix(matrix, angle._mask_) * deriv)
 
         return obj
 
